@@ -11,3 +11,4 @@ import NakenVerif.Props.C02
 import NakenVerif.Props.C14
 import NakenVerif.Props.C15
 import NakenVerif.Props.C05
+import NakenVerif.Props.C03
